@@ -21,7 +21,7 @@ PROPS = {
     "C11": dict(groups=["rulenew", "rulepairs"], families=["rulenew"], level="exploration", errkind_matters=True, theorems=[], exhaustive=True),
     "C12": dict(groups=["leap"], families=["zone", "lookup", "find", "dtfrom"], level="proof", errkind_matters=False, theorems=["TzVerif.C12." + t for t in ['to_utc_correct', 'takes_effect_exactly', 'to_utc_monotone', 'to_count_monotone', 'roundtrip', 'to_count_total', 'inserted_shares', 'deleted_skips', 'legacy_counterexample']]),
     "C13": dict(groups=["zonenew", "lttnew"], families=["zonenew", "lttnew", "zone"], level="proof", errkind_matters=True, theorems=["TzVerif.C13." + t for t in ['accepts_iff', 'new_iff', 'errors_specific', 'saturating_spacing', 'saturating_step', 'rule_clause_compares_all', 'local_time_type_iff', 'local_time_type_errors', 'designation_alphabet']]),
-    "C14": dict(groups=["dt", "zonelookup", "find"], families=["dtnew", "dtfromlocal", "dttn", "dtcmp", "dtfrom", "find"], level="exploration", errkind_matters=False, theorems=[]),
+    "C14": dict(groups=["dt", "zonelookup", "find"], families=["dtnew", "dtfromlocal", "dttn", "dtcmp", "dtfrom", "find"], level="proof", errkind_matters=False, theorems=["TzVerif.C14." + t for t in ['new_correct', 'new_invariant', 'from_timespec_and_local', 'from_timespec_and_local_accepts', 'from_timespec_zone', 'from_total_nanoseconds', 'from_total_nanoseconds_and_local', 'projection', 'search_entries', 'equality', 'ordering']]),
     "C15": dict(groups=["threads"], families=["threads", "lookup", "find", "findn", "dtfrom", "tzifgen"], level="other", errkind_matters=False, theorems=[], special="c15"),
     "C16": dict(groups=["tn", "dt"], families=["utctn", "dttn", "utcnew"], level="proof", errkind_matters=False,
                 theorems=["TzVerif.C16." + t for t in ["split_correct", "split_range", "recombine", "roundtrip", "roundtrip'", "recombine_fits_i128",
